@@ -31,6 +31,7 @@ def step (line : String) : String :=
   | "switch" :: args => handleStructure "switch" args
   | "clipf" :: args => handleClip args
   | "collect" :: args => handleRefs "collect" args
+  | "writenum" :: args => handleRefs "writenum" args
   | "escattr" :: args => handleRefs "escattr" args
   | "finputs" :: args => handleRefs "finputs" args
   | "stops" :: args => handleValues "stops" args
